@@ -148,6 +148,10 @@ func H18_wiring() {
 	}
 	vAssert(n == 1, "C18.exactly-one-transport-credential")
 	vAssert(!m18InsecureUsed, "C18.no-insecure-credentials")
+	// the configuration is used as built: in particular the server name stays
+	// unset, so that grpc checks each certificate against the endpoint it dialled
+	vAssert(m18Cfg.ServerName == "" && !m18Cfg.InsecureSkipVerify && m18Cfg.MinVersion == tls.VersionTLS12 && m18Cfg.RootCAs == nil &&
+		m18Cfg.VerifyPeerCertificate == nil && m18Cfg.VerifyConnection == nil, "C18.tls-configuration-used-unmodified")
 	vAssert(len(m18CredsFrom) == 1 && m18CredsFrom[0] == m18Cfg, "C18.credentials-wrap-the-tls-configuration")
 	c, ok := m18TCArg.(*m18Creds)
 	vAssert(ok && c == m18LastCreds && c.cfg == m18Cfg, "C18.transport-credentials-are-the-tls-credentials")
